@@ -46,6 +46,12 @@ type Event struct {
 	From   string // mount source repository
 }
 
+type Commit struct {
+	Repo   string
+	Digest string
+	Data   []byte
+}
+
 type upload struct {
 	repo string
 	data []byte
@@ -58,11 +64,13 @@ type Registry struct {
 	ReferrersAPI bool // referrers endpoint and OCI-Subject acknowledgement
 	ServerFilter bool // the referrers endpoint applies the artifactType filter
 	PageSize     int  // referrers page size, 0 = unpaged
+	TagPage      int  // tag listing page size enforced by the registry, 0 = unpaged
 	TagDelete    bool // DELETE manifests/<tag> supported
 	Mount        bool // cross-repository mount granted when the named source holds the blob
 	HeadDigest   bool // HEAD/GET of a manifest carries Docker-Content-Digest
 	ValidateRefs bool // a manifest is rejected unless everything it references is present
 	ReadOnly     bool // every state-changing request is refused (403)
+	MaxPutBody   int  // a closing PUT that carries more than this many bytes is refused (413); 0 = no limit
 
 	// Before runs first for every request. A non-zero result replaces the
 	// normal handling: -1 = transport failure, otherwise that status code.
@@ -73,6 +81,7 @@ type Registry struct {
 	uploads map[string]*upload
 	nUp     int
 	Log     []Event
+	Commits []Commit // every blob committed through an upload session, in order
 }
 
 func New(host string) *Registry {
@@ -230,6 +239,14 @@ func body(req *reghttp.Req) []byte {
 	return nil
 }
 
+// bodyLenOK mirrors net/http: a request whose declared Content-Length (> 0)
+// differs from the number of bytes its body yields is never delivered - the
+// transport fails it ("http: ContentLength=N with Body length M"). A zero
+// length with a body means "unknown" (chunked transfer encoding).
+func bodyLenOK(req *reghttp.Req, b []byte) bool {
+	return req.BodyLen <= 0 || int64(len(b)) == req.BodyLen
+}
+
 // Do serves one request.
 func (r *Registry) Do(c *reghttp.Client, ctx context.Context, req *reghttp.Req) (*reghttp.Resp, error) {
 	u := req.DirectURL
@@ -268,12 +285,21 @@ func (r *Registry) Do(c *reghttp.Client, ctx context.Context, req *reghttp.Req) 
 		}
 		return resp, nil
 	}
+	if err := ctx.Err(); err != nil {
+		// as the real Do: nothing is sent on a context that is already done
+		ev.Status = -2
+		r.Log = append(r.Log, ev)
+		return reghttp.ZZNewResp(c, ctx, req, u, 0, nil, nil, 0), err
+	}
+	transportErr := func() (*reghttp.Resp, error) {
+		ev.Status = -1
+		r.Log = append(r.Log, ev)
+		return reghttp.ZZNewResp(c, ctx, req, u, 0, nil, nil, 0), fmt.Errorf("zzreg: transport error")
+	}
 	if r.Before != nil {
 		if st := r.Before(ctx, req, &ev); st != 0 {
 			if st < 0 {
-				ev.Status = -1
-				r.Log = append(r.Log, ev)
-				return reghttp.ZZNewResp(c, ctx, req, u, 0, nil, nil, 0), fmt.Errorf("zzreg: connection reset")
+				return transportErr()
 			}
 			return reply(st, nil, nil)
 		}
@@ -347,6 +373,9 @@ func (r *Registry) Do(c *reghttp.Client, ctx context.Context, req *reghttp.Req) 
 				return reply(204, nil, nil)
 			case "PATCH":
 				chunk := body(req)
+				if !bodyLenOK(req, chunk) {
+					return transportErr()
+				}
 				if cr := req.Headers.Get("Content-Range"); cr != "" {
 					start, _ := strconv.Atoi(strings.SplitN(cr, "-", 2)[0])
 					if start != len(up.data) {
@@ -357,6 +386,12 @@ func (r *Registry) Do(c *reghttp.Client, ctx context.Context, req *reghttp.Req) 
 				return reply(202, hdr(), nil)
 			case "PUT":
 				chunk := body(req)
+				if !bodyLenOK(req, chunk) {
+					return transportErr()
+				}
+				if r.MaxPutBody > 0 && len(chunk) > r.MaxPutBody {
+					return reply(413, hdr(), nil)
+				}
 				data := append(append([]byte{}, up.data...), chunk...)
 				want := queryGet(u.RawQuery, "digest")
 				dgst, err := digest.Parse(want)
@@ -366,6 +401,7 @@ func (r *Registry) Do(c *reghttp.Client, ctx context.Context, req *reghttp.Req) 
 				}
 				delete(r.uploads, rest)
 				rp.Blobs[want] = data
+				r.Commits = append(r.Commits, Commit{Repo: repo, Digest: want, Data: data})
 				if r.OnCommit != nil {
 					r.OnCommit("blob", repo, want, data)
 				}
@@ -499,11 +535,27 @@ func (r *Registry) Do(c *reghttp.Client, ctx context.Context, req *reghttp.Req) 
 			tags = append(tags, t)
 		}
 		sort.Strings(tags)
+		h := http.Header{"Content-Type": {"application/json"}}
+		if last := queryGet(u.RawQuery, "last"); last != "" {
+			i := 0
+			for i < len(tags) && tags[i] <= last {
+				i++
+			}
+			tags = tags[i:]
+		}
+		page := r.TagPage
+		if n, err := strconv.Atoi(queryGet(u.RawQuery, "n")); err == nil && n > 0 && (page == 0 || n < page) {
+			page = n
+		}
+		if page > 0 && len(tags) > page {
+			tags = tags[:page]
+			h.Set("Link", "</v2/"+repo+"/tags/list?n="+strconv.Itoa(page)+"&last="+url.QueryEscape(tags[page-1])+">; rel=\"next\"")
+		}
 		b, _ := json.Marshal(struct {
 			Name string   `json:"name"`
 			Tags []string `json:"tags"`
 		}{repo, tags})
-		return reply(200, http.Header{"Content-Type": {"application/json"}}, b)
+		return reply(200, h, b)
 	}
 	return reply(404, nil, nil)
 }
